@@ -183,8 +183,19 @@ func (t *Term) iv0() ival {
 				return a(1 - i)
 			}
 		}
+		// disjoint bit ranges (byte assembly x | y<<k with 0 <= x < 2^k): or is addition
+		for i := 0; i < 2; i++ {
+			if sh := t.Args[i]; sh.Op == "bvshl" {
+				if c := constThrough(sh.Args[1]); c != nil {
+					x, y := a(1-i), a(i)
+					if x.lo.Sign() >= 0 && x.hi.Cmp(p2(int(c.C))) < 0 && y.lo.Sign() >= 0 {
+						return ival{share(fmt.Sprintf("(+ %s %s)", x.s, y.s)), new(big.Int).Add(x.lo, y.lo), new(big.Int).Add(x.hi, y.hi)}
+					}
+				}
+			}
+		}
 	case "bvshl", "bvlshr", "bvashr":
-		if c := t.Args[1]; c.Op == "const" {
+		if c := constThrough(t.Args[1]); c != nil {
 			x := a(0)
 			k := p2(int(c.C))
 			if t.Op == "bvshl" {
@@ -200,6 +211,29 @@ func (t *Term) iv0() ival {
 		d += " [" + x.Op + fmt.Sprintf(":%d:%x", x.W, x.C) + "]"
 	}
 	panic(pathEnd{"intprint: unsupported " + d})
+}
+
+// constThrough sees a constant through width conversions (shift amounts are converted to the operand width)
+func constThrough(t *Term) *Term {
+	for t != nil {
+		switch t.Op {
+		case "const":
+			return t
+		case "zext", "conv":
+			t = t.Args[0]
+		case "extract":
+			if t.Lo != 0 {
+				return nil
+			}
+			if c := constThrough(t.Args[0]); c != nil && t.Hi < 63 {
+				return &Term{Op: "const", W: t.Hi + 1, C: c.C & (1<<uint(t.Hi+1) - 1)}
+			}
+			return nil
+		default:
+			return nil
+		}
+	}
+	return nil
 }
 
 func maxAbs(x ival) *big.Int {
